@@ -25,6 +25,10 @@ def _aug_nodes(g, path):
     return [n for n in g.nodes if n.kind == "stmt" and isinstance(n.ast, ast.AugAssign) and path_key(n.ast.target) == path]
 
 
+def _aug_nodes_any(g):
+    return [n for n in g.nodes if n.kind == "stmt" and isinstance(n.ast, ast.AugAssign)]
+
+
 def _assign_nodes(g, path):
     out = []
     for n in g.nodes:
@@ -57,22 +61,44 @@ def sower_facts(ctx):
     f.wnode, f.wcall = wcalls[0]
     f.buffer = path_key(f.wcall.args[0]) if f.wcall.args else None
     need(f.buffer is not None, "idiom changed: Sower flush does not write an attribute buffer: %s" % norm(f.wcall))
-    # batch counter: format argument of the batch template in the path
+    # batch counter: the self attribute incremented in the flush method that determines the batch file's name
+    from ..util import ConstFold, LOCATION_STANDIN
     f.counter = None
-    for x in ast.walk(f.wcall.args[1]) if len(f.wcall.args) > 1 else []:
-        if isinstance(x, ast.Call) and isinstance(x.func, ast.Attribute) and x.func.attr == "format" and norm(x.func.value) == "BTCH_NM" and x.args:
-            f.counter_expr = x.args[0]
-            f.counter = path_key(x.args[0])
-    need(f.counter is not None, "idiom changed: batch file name is not BTCH_NM.format(<counter attribute>): %s" % norm(f.wcall))
-    # in-batch counter: attribute compared with an expression mentioning batchsize in __call__
+    pa = f.wcall.args[1] if len(f.wcall.args) > 1 else None
+    need(pa is not None, "idiom changed: Sower flush writes without a path")
+    incd = {path_key(n.ast.target) for n in _aug_nodes_any(g)}
+    cands = [k for k in incd if k and k.startswith("self.")]
+    t = templates(ctx)
+    for k in cands:
+        try:
+            v = ConstFold(ctx, f.flush, {k: 7, "self.crop.location": LOCATION_STANDIN}, lenient=True).ev(pa)
+        except AnalysisError:
+            v = None
+        if isinstance(v, str) and v.endswith("/batches/" + t["BTCH_NM"].format(7)):
+            f.counter = k
+    need(f.counter is not None, "idiom changed: the batch file name is not batches/BTCH_NM.format(<a counter incremented in %s>): %s" % (f.flush.name, norm(f.wcall)))
+    f.counter_expr = ast.parse(f.counter, mode="eval").body
+    # cut test: the test in __call__ whose true branch flushes; in-batch counter: its attribute side
     gc = build_cfg(f.call.node)
     f.cut = None
     for n in gc.nodes:
-        if n.kind == "test" and isinstance(n.ast, ast.Compare) and "batchsize" in norm(n.ast):
-            f.cut = n
-    need(f.cut is not None, "idiom changed: no cut test mentioning batchsize in Sower.__call__")
-    f.inbatch = path_key(f.cut.ast.left)
-    need(f.inbatch is not None, "idiom changed: cut test left side %s" % norm(f.cut.ast.left))
+        if n.kind == "test" and isinstance(n.ast, ast.Compare) and len(n.ast.ops) == 1:
+            tsucc = [b for b, l in gc.succ[n.id] if l == "t"]
+            if tsucc and any(callee_name(ctx, f.call, c) == f.flush.qualname for x in (gc.reachable(start=tsucc[0], skip_labels=("exc",)) | {tsucc[0]}) for c in node_calls(gc.nodes[x])):
+                f.cut = n
+    need(f.cut is not None, "idiom changed: no test in Sower.__call__ whose true branch writes the batch")
+    sides = [f.cut.ast.left, f.cut.ast.comparators[0]]
+    inb = [x for x in sides if path_key(x) and path_key(x).startswith("self.") and "crop" not in path_key(x)]
+    need(len(inb) == 1, "idiom changed: cut test %s" % norm(f.cut.ast))
+    f.inbatch = path_key(inb[0])
+    f.size_expr = [x for x in sides if x is not inb[0]][0]
+    # derived counter: a property returning len(buffer)
+    f.inbatch_derived = False
+    pm = f.cls.methods.get(f.inbatch.split(".", 1)[1])
+    if pm is not None and any(norm(d) == "property" for d in pm.node.decorator_list):
+        rets = [r for r in walk_shallow(pm.node) if isinstance(r, ast.Return)]
+        if len(rets) == 1 and norm(rets[0].value) == "len(%s)" % f.buffer:
+            f.inbatch_derived = True
     return f
 
 
@@ -84,7 +110,7 @@ def sower_machine_rule(ctx, rid):
     # ---- __init__ starts from zero / empty
     gi = build_cfg(f.init.node)
     ctx.touch(f.init, gi)
-    for path, want in ((f.counter, "0"), (f.inbatch, "0")):
+    for path, want in ((f.counter, "0"),) + (() if f.inbatch_derived else ((f.inbatch, "0"),)):
         a = _assign_nodes(gi, path)
         if len(a) == 1 and norm(a[0].ast.value) == want:
             rr.ok("%s.__init__: %s = %s" % (S, path, want))
@@ -121,8 +147,8 @@ def sower_machine_rule(ctx, rid):
             rr.bad(ctx.finding(rid, f.flush, inc.ast, "increment and write are not ordered on every path", construct="counter-unordered"), "flush order")
     if norm(f.counter_expr) != f.counter:
         raise AnalysisError("batch name uses %s, not the bare counter" % norm(f.counter_expr))
-    for path, want, why in ((f.buffer, ("[]", "list()"), "the next batch would repeat the settings already written"),
-                            (f.inbatch, ("0",), "the next batch would be cut at the wrong size")):
+    for path, want, why in ((f.buffer, ("[]", "list()"), "the next batch would repeat the settings already written"),) + \
+            (() if f.inbatch_derived else ((f.inbatch, ("0",), "the next batch would be cut at the wrong size"),)):
         rs = [n for n in _assign_nodes(g, path) if norm(n.ast.value) in want]
         okr = [n for n in rs if g.completes_before(f.wnode.id, n.id) and g.completes_before(n.id, g.exit.id)]
         if okr:
@@ -141,31 +167,64 @@ def sower_machine_rule(ctx, rid):
     else:
         rr.bad(ctx.finding(rid, f.call, apps[0][1] if apps else f.call.node, "the settings of a call are not appended to the batch buffer exactly once, unmodified, on every path (found %s): a setting is lost, duplicated or altered"
                            % [norm(c) for _, c in apps], construct="append-once"), "call appends once")
-    incs = _aug_nodes(gc, f.inbatch)
-    if len(incs) == 1 and isinstance(incs[0].ast.op, ast.Add) and norm(incs[0].ast.value) == "1" and gc.completes_before(incs[0].id, f.cut.id):
-        rr.ok("%s.__call__: `%s` once before the cut test" % (S, norm(incs[0].ast)))
+    if f.inbatch_derived:
+        rr.ok("%s.__call__: the in-batch count is len(%s), derived from the buffer itself" % (S, f.buffer))
     else:
-        rr.bad(ctx.finding(rid, f.call, incs[0].ast if incs else f.call.node, "the in-batch counter %s is not incremented exactly once before the cut test" % f.inbatch, construct="inbatch-increment"), "call counts once")
-    # cut: inbatch == batchsize + [P] ; true edge flushes
-    cmp = f.cut.ast
-    if len(cmp.ops) == 1 and isinstance(cmp.ops[0], ast.Eq):
-        try:
-            rhs = lin(cmp.comparators[0], subst=lambda nm: (single_def(f.call, nm) or (None, None))[1], rename=last_attr)
-        except NotAffine as e:
-            raise AnalysisError("cut size not linear: %s" % e)
-        inds = [s for s in rhs.c if s.startswith("[")]
-        rest = Lin({s: v for s, v in rhs.c.items() if not s.startswith("[")}, rhs.k)
-        if rest == sym("batchsize") and len(inds) == 1 and rhs.c[inds[0]] == 1:
-            rr.ok("%s.__call__: batch is cut when %s == batchsize + %s" % (S, last_attr(f.inbatch), inds[0]))
-            f.pred_text = inds[0][1:-1]
-        elif rest == sym("batchsize") and not inds:
-            f.pred_text = None
-            rr.bad(ctx.finding(rid, f.call, cmp, "the cut size ignores the remainder: every batch has `batchsize` settings and the remainder overflows into extra batches", construct="cut-no-extra"), "cut size")
+        incs = _aug_nodes(gc, f.inbatch)
+        if len(incs) == 1 and isinstance(incs[0].ast.op, ast.Add) and norm(incs[0].ast.value) == "1" and gc.completes_before(incs[0].id, f.cut.id):
+            rr.ok("%s.__call__: `%s` once before the cut test" % (S, norm(incs[0].ast)))
         else:
-            rr.bad(ctx.finding(rid, f.call, cmp, "batches are cut at %s instead of batchsize + [extra]" % rhs, construct="cut-size " + repr(rhs)), "cut size")
-            f.pred_text = None
-    else:
-        raise AnalysisError("cut test shape not recognised: %s" % norm(cmp))
+            rr.bad(ctx.finding(rid, f.call, incs[0].ast if incs else f.call.node, "the in-batch counter %s is not incremented exactly once before the cut test" % f.inbatch, construct="inbatch-increment"), "call counts once")
+    # cut size, evaluated exhaustively on a window of (batchsize, remainder, batches written so far)
+    from ..util import IntEval
+    cmp = f.cut.ast
+    if not isinstance(cmp.ops[0], ast.Eq):
+        raise AnalysisError("cut test is not an equality: %s" % norm(cmp))
+    f.pred_text = None
+    f.cut_ok = None
+    if f.inc_before is not None:
+        def mk(b, r, k):
+            sym = {"self.crop.batchsize": b, "self.crop._batch_remainder": r, f.counter: k}
+
+            def on_call(c, ev, st):
+                m = None
+                if isinstance(c.func, ast.Attribute) and norm(c.func.value) == "self":
+                    m = f.cls.methods.get(c.func.attr)
+                if m is not None and not c.args and not c.keywords:
+                    res = IntEval(sym, on_call).run([x for x in m.node.body])
+                    if res[0] == "return":
+                        return res[1]
+                    raise AnalysisError("Sower helper %s does not return a size" % m.name)
+                if isinstance(c.func, ast.Name) and c.func.id == "int" and len(c.args) == 1:
+                    return int(bool(ev.ev(c.args[0], st)))
+                return NotImplemented
+            pre = {}
+            # local definitions preceding the test (e.g. extra_batch = ...)
+            ev = IntEval(sym, on_call)
+            for st_ in f.call.node.body:
+                if isinstance(st_, ast.Assign) and len(st_.targets) == 1 and isinstance(st_.targets[0], ast.Name):
+                    try:
+                        pre[st_.targets[0].id] = ev.ev(st_.value, pre)
+                    except AnalysisError:
+                        pass
+            return ev.ev(f.size_expr, pre)
+        bad_pt = None
+        for b in (1, 2, 3):
+            for r in (0, 1, 2, 3):
+                for k in range(0, 5):
+                    got = mk(b, r, k)
+                    want = b + (1 if (k + f.inc_before) <= r else 0)
+                    if got != want and bad_pt is None:
+                        bad_pt = (b, r, k, got, want)
+        if bad_pt is None:
+            f.cut_ok = True
+            f.pred_text = "id <= remainder"
+            rr.ok("%s.__call__: batch cut at batchsize + [id <= remainder] with id = batches written + %d (evaluated on the window batchsize 1..3 x remainder 0..3 x 0..4 batches written)" % (S, f.inc_before))
+        else:
+            f.cut_ok = False
+            b, r, k, got, want = bad_pt
+            rr.bad(ctx.finding(rid, f.call, cmp, "with batchsize=%d, remainder=%d and %d batches already written the current batch (id %d) is cut at %s settings instead of %d: not exactly the first `remainder` batches get one extra setting, so the sizes no longer add up to the number of settings"
+                               % (b, r, k, k + f.inc_before, got, want), construct="cut-size"), "cut size")
     tsucc = [b for b, l in gc.succ[f.cut.id] if l == "t"]
     flush_calls = [(n, c) for n, c, nm in all_calls(ctx, f.call, gc) if nm == f.flush.qualname]
     if flush_calls and all(gc.dominates(f.cut.id, n.id) for n, _ in flush_calls) and any(n.id in gc.reachable(start=tsucc[0]) | {tsucc[0]} for n, _ in flush_calls):
@@ -205,33 +264,11 @@ def _norm_pred(forms, id_sym, r_sym):
 
 
 def sower_extra_predicate(ctx, f):
-    """-> (k, text): Sower gives the extra setting to ids with id <= r + k."""
-    if getattr(f, "pred_text", None) is None or f.inc_before is None:
-        return None, None
-    pred = ast.parse(f.pred_text, mode="eval").body
-    sub = lambda nm: (single_def(f.call, nm) or (None, None))[1]
-    cname = last_attr(f.counter)
-
-    def ren(p):
-        a = last_attr(p)
-        return a
-    try:
-        forms = predicate(pred, subst=sub, rename=ren)
-    except NotAffine as e:
-        raise AnalysisError("Sower extra-batch predicate not linear: %s" % e)
-    # counter = id - inc_before
-    out = []
-    for F in forms:
-        c = dict(F.c)
-        k = F.k
-        if cname in c:
-            v = c.pop(cname)
-            c["id"] = c.get("id", 0) + v
-            k += v * (-f.inc_before)
-        out.append(Lin(c, k))
-    rs = [s for F in out for s in F.c if "remainder" in s]
-    need(rs, "Sower predicate does not mention the remainder: %s" % f.pred_text)
-    return _norm_pred(out, "id", rs[0]), f.pred_text
+    """-> (k, text): Sower gives the extra setting to ids with id <= r + k
+    (k = 0 when the exhaustive cut-size evaluation of C07.R1 succeeded)."""
+    if getattr(f, "cut_ok", None) is True:
+        return 0, "id <= remainder (window-evaluated)"
+    return None, None
 
 
 def extra_predicate_rule(ctx, rid, f, with_reaper):
@@ -239,7 +276,10 @@ def extra_predicate_rule(ctx, rid, f, with_reaper):
     rr = ctx.rule(rid, "who gets the extra setting: Sower normal form id <= remainder" + (" and the Reaper's placeholder size agrees" if with_reaper else ""), floor=2 if with_reaper else 1)
     ks, txt = sower_extra_predicate(ctx, f)
     if ks is None:
-        raise AnalysisError("Sower extra-batch predicate not in a recognised form (%s)" % txt)
+        if getattr(f, "cut_ok", None) is False:
+            rr.bad(ctx.finding(rid, f.call, f.cut.ast, "the Sower does not give the extra setting to exactly the first `remainder` batches (see the cut-size evaluation)", construct="sower-extra-predicate"), "sower predicate")
+            return rr
+        raise AnalysisError("Sower extra-batch predicate could not be evaluated")
     if ks != 0:
         rr.bad(ctx.finding(rid, f.call, f.cut.ast, "the Sower gives the extra setting to batches with id <= remainder%+d (from `%s`), not to exactly the first `remainder` batches: the sizes no longer add up to the number of settings" % (ks, txt),
                            construct="sower-extra-predicate"), "sower predicate")
@@ -248,9 +288,8 @@ def extra_predicate_rule(ctx, rid, f, with_reaper):
     if not with_reaper:
         return rr
     prog = ctx.prog
-    init = prog.need_func(CROP + ".Reaper.__init__")
-    ld = init.nested.get("_load")
-    need(ld is not None, "anchor lost: Reaper _load")
+    from .shared import reaper_loaders
+    ld, _wl, init = reaper_loaders(ctx)
     g = build_cfg(ld.node)
     ctx.touch(ld, g)
     # placeholder: (default,) * size
@@ -343,148 +382,125 @@ def extra_predicate_rule(ctx, rid, f, with_reaper):
 
 # ------------------------------------------------------------------ formulas
 def formulas_rule(ctx, rid):
-    """C07.R3: choose_batch_settings computes the documented numbers."""
-    rr = ctx.rule(rid, "batch formulas: n, ceil(n/size), min(n, k) before divmod, consistency window", floor=6)
+    """C07.R3: choose_batch_settings computes the documented numbers.  The
+    function is a pure integer function of (batchsize, num_batches, remainder,
+    n_cases, n_combos); its syntax tree is evaluated exhaustively on a finite
+    window of those inputs and the resulting state compared with the
+    specification (ceil(n/s); min(k, n) then divmod; the consistency window)."""
+    import math as _math
+    from ..util import IntEval
+    rr = ctx.rule(rid, "batch formulas: n = cases x prod(values); size mode ceil(n/s), remainder 0; count mode min(k, n) then divmod; consistency window when both are given", floor=3)
     prog = ctx.prog
     crop = prog.need_cls(CROP + ".Crop")
     f = crop.methods.get("choose_batch_settings")
     need(f is not None, "anchor lost: Crop.choose_batch_settings")
-    g = build_cfg(f.node)
-    ctx.touch(f, g)
-    sub = lambda nm: (single_def(f, nm) or (None, None))[1]
-    # ---- n = n_cases * n_combos
-    dn = single_def(f, "n", g)
-    need(dn is not None, "idiom changed: `n` has no single definition")
-    nn, ne = dn
-    ok_n = isinstance(ne, ast.BinOp) and isinstance(ne.op, ast.Mult) and {norm(ne.left), norm(ne.right)} == {"n_cases", "n_combos"}
-    d1 = [norm(v) for _, v in assignments_to(f, "n_combos", g) if v is not None]
-    d2 = [norm(v) for _, v in assignments_to(f, "n_cases", g) if v is not None]
-    ok_c = sorted(d1) == sorted(["prod((len(x) for _, x in combos))", "1"]) or sorted(d1) == sorted(["prod(len(x) for _, x in combos)", "1"])
-    ok_k = sorted(d2) == sorted(["len(cases)", "1"])
-    if ok_n and ok_c and ok_k:
-        rr.ok("n = n_cases * n_combos with n_combos = prod(len(values)) or 1, n_cases = len(cases) or 1")
-    elif not ok_n:
-        rr.bad(ctx.finding(rid, f, ne, "the total number of settings is computed as `%s`, not n_cases * n_combos" % norm(ne), construct="n-formula"), "n formula")
-    else:
-        rr.bad(ctx.finding(rid, f, nn.ast, "n_combos / n_cases are not prod(len(values)) / len(cases) with neutral element 1: %s / %s" % (d1, d2), construct="n-factors"), "n factors")
+    ctx.touch(f)
+    body = [x for x in f.node.body]
 
-    B = "self.num_batches"
-    S = "self.batchsize"
-    R = "self._batch_remainder"
-    # ---- batch size branch
-    nbs = [n for n in _assign_nodes(g, B)]
-    ceil_nodes = [n for n in nbs if isinstance(n.ast.value, (ast.Call, ast.BinOp, ast.UnaryOp)) and ("ceil" in norm(n.ast.value) or "//" in norm(n.ast.value))]
-    accepted = {"math.ceil(n / self.batchsize)", "-(-n // self.batchsize)", "(n + self.batchsize - 1) // self.batchsize", "ceil(n / self.batchsize)",
-                "(n - 1) // self.batchsize + 1"}
-    if len(ceil_nodes) != 1:
-        raise AnalysisError("idiom changed: expected one num_batches-from-batchsize assignment, found %s" % [norm(n.ast) for n in ceil_nodes])
-    cn = ceil_nodes[0]
-    if norm(cn.ast.value) in accepted:
-        rr.ok("num_batches from a batch size: %s (ceiling)" % norm(cn.ast.value))
-    else:
-        rr.bad(ctx.finding(rid, f, cn.ast, "with a requested batch size the number of batches is `%s`, not ceil(n / batchsize)" % norm(cn.ast.value), construct="ceil-formula"), "ceil formula")
-    rz = [n for n in _assign_nodes(g, R) if norm(n.ast.value) == "0" and g.dominates(n.id, g.exit.id) is not None]
-    rz = [n for n in rz if (cn.id in g.reachable(start=n.id) or n.id in g.reachable(start=cn.id))]
-    if rz:
-        rr.ok("batch-size branch sets the remainder to 0")
-    else:
-        rr.bad(ctx.finding(rid, f, cn.ast, "with a requested batch size the remainder is not set to 0 on the same path", construct="remainder-zero"), "remainder zero")
-    # batchsize validated >= 1 before use
-    tests = [n for n in g.nodes if n.kind == "test" and norm(n.ast) in ("self.batchsize < 1", "self.batchsize <= 0", "not self.batchsize >= 1")]
-    if tests and all(g.dominates(t.id, cn.id) for t in tests):
-        rr.ok("batchsize >= 1 is enforced before the division")
-    else:
-        rr.bad(ctx.finding(rid, f, cn.ast, "batchsize is not validated (>= 1) before dividing by it", construct="batchsize-validation"), "batchsize validation")
+    def evaluate(bs, nb, rem, nk, nc, with_combos=True, with_cases=True):
+        sym = {"self.batchsize": bs, "self.num_batches": nb, "self._batch_remainder": rem,
+               "combos": with_combos, "cases": with_cases}
 
-    # ---- batch count branch: divmod with capped divisor; facts survive to exit
-    dms = [n for n in g.nodes if n.kind == "stmt" and isinstance(n.ast, ast.Assign) and isinstance(n.ast.value, ast.Call) and norm(n.ast.value.func) == "divmod"]
-    pair_alt = None
-    if len(dms) != 1:
-        # accept the // and % pair
-        q = [n for n in _assign_nodes(g, S) if norm(n.ast.value) == "n // self.num_batches"]
-        m = [n for n in _assign_nodes(g, R) if norm(n.ast.value) == "n % self.num_batches"]
-        if len(q) == 1 and len(m) == 1:
-            pair_alt = (q[0], m[0])
-        else:
-            raise AnalysisError("idiom changed: no `divmod(n, num_batches)` (or //, % pair) in choose_batch_settings")
-    if pair_alt is None:
-        dm = dms[0]
-        tg = dm.ast.targets[0]
-        args = [norm(a) for a in dm.ast.value.args]
-        tnames = [path_key(x) for x in tg.elts] if isinstance(tg, (ast.Tuple, ast.List)) else []
-        if args != ["n", B]:
-            rr.bad(ctx.finding(rid, f, dm.ast, "divmod operands are %s, not (n, num_batches)" % args, construct="divmod-operands"), "divmod operands")
-        elif tnames != [S, R]:
-            rr.bad(ctx.finding(rid, f, dm.ast, "divmod results are stored as %s, not (batchsize, remainder): quotient and remainder are swapped or misplaced" % tnames, construct="divmod-targets"), "divmod targets")
-        else:
-            rr.ok("(batchsize, remainder) = divmod(n, num_batches)")
-        anchor_nodes = [dm]
-    else:
-        rr.ok("batchsize = n // num_batches and remainder = n % num_batches (same operands)")
-        anchor_nodes = list(pair_alt)
-    first = anchor_nodes[0]
-    # cap: self.num_batches = min(n, self.num_batches) completes before, nothing re-stores after
-    caps = [n for n in nbs if isinstance(n.ast.value, ast.Call) and norm(n.ast.value.func) == "min"
-            and sorted(norm(a) for a in n.ast.value.args) == sorted(["n", B])]
-    capped = [c for c in caps if g.completes_before(c.id, first.id)]
-    if not capped:
-        rr.bad(ctx.finding(rid, f, first.ast, "the number of batches is not capped with min(n, num_batches) before it divides n: with more batches requested than settings the quotient is 0 and the stored (batchsize, num_batches, remainder) no longer describe the files that are written",
-                           construct="no-cap-before-divmod"), "cap before divmod")
-    else:
-        rr.ok("num_batches = min(n, num_batches) completes before the division")
-    # available-expression: after the division no store to batchsize / num_batches / remainder / n on a path to exit
-    later = set()
-    for a in anchor_nodes:
-        later |= g.reachable(start=a.id, skip_labels=("exc",))
-    later -= {a.id for a in anchor_nodes}
-    restores = []
-    for nid in sorted(later):
-        n = g.nodes[nid]
-        if n.kind == "stmt" and isinstance(n.ast, (ast.Assign, ast.AugAssign)):
-            tgts = n.ast.targets if isinstance(n.ast, ast.Assign) else [n.ast.target]
-            for t in tgts:
-                for x in ([t] if not isinstance(t, (ast.Tuple, ast.List)) else t.elts):
-                    if path_key(x) in (S, B, R, "n"):
-                        restores.append(n)
-    if restores:
-        rr.bad(ctx.finding(rid, f, restores[0].ast, "`%s` changes batchsize / num_batches / remainder after they were derived together from divmod(n, num_batches): the three numbers no longer satisfy n = batchsize * num_batches + remainder with remainder < num_batches"
-                           % norm(restores[0].ast), construct="restore-after-divmod " + norm(restores[0].ast)), "triple consistent until exit")
-    else:
-        rr.ok("nothing re-stores batchsize / num_batches / remainder after the division")
-
-    # ---- both given: consistency window  n <= size*count (+ rem) < n + size
-    def subw(nm):
-        if nm in ("pos_tot", "n"):
-            return sym(nm)
-        d = single_def(f, nm)
-        return d[1] if d else None
-    wins = []
-    for nd in g.nodes:
-        if nd.kind != "test":
-            continue
-        t = nd.ast
-        neg = False
-        while isinstance(t, ast.UnaryOp) and isinstance(t.op, ast.Not):
-            neg = not neg
-            t = t.operand
-        if not isinstance(t, ast.Compare) or any(isinstance(o, (ast.Is, ast.IsNot, ast.In, ast.NotIn)) for o in t.ops):
-            continue
+        def on_call(c, ev, st):
+            fn = norm(c.func)
+            if fn in ("prod", "math.prod", "np.prod"):
+                return nc
+            if fn == "len" and c.args and norm(c.args[0]) == "cases":
+                return nk
+            if fn == "isinstance" and len(c.args) == 2:
+                v = ev.ev(c.args[0], st)
+                return isinstance(v, int) and not isinstance(v, bool) if norm(c.args[1]) == "int" else NotImplemented
+            if fn in ("math.ceil", "ceil"):
+                return _math.ceil(ev.ev(c.args[0], st))
+            if fn == "divmod":
+                return divmod(ev.ev(c.args[0], st), ev.ev(c.args[1], st))
+            return NotImplemented
+        ev = IntEval(sym, on_call)
         try:
-            forms = constraints(t, subst=subw, rename=last_attr)
-        except NotAffine:
-            continue
-        if any("pos_tot" in F.c for F in forms):
-            wins.append((nd, neg, forms))
-    if len(wins) != 1:
-        raise AnalysisError("idiom changed: consistency check on batchsize * num_batches not found (%d candidates)" % len(wins))
-    w, neg, forms = wins[0]
-    want = {Lin({"pos_tot": 1, "n": -1}, 0), Lin({"n": 1, "batchsize": 1, "pos_tot": -1}, -1)}
-    raises_on = [l for b, l in g.succ[w.id] if l in ("t", "f") and g.exit.id not in g.reachable(start=b) and b != g.exit.id]
-    if set(forms) == want and ((neg and raises_on == ["t"]) or ((not neg) and raises_on == ["f"])):
-        rr.ok("both given: accepted iff n <= batchsize*num_batches(+remainder) < n + batchsize (normal form %s)" % sorted(map(repr, forms)))
-    else:
-        rr.bad(ctx.finding(rid, f, w.ast, "the consistency check accepts {%s >= 0} instead of {pos_tot - n >= 0, n + batchsize - pos_tot - 1 >= 0}: a stored batch size / count that does not cover the new settings exactly is accepted (or a valid one refused)"
-                           % ", ".join(sorted(map(repr, forms))), construct="consistency-window"), "consistency window")
+            res = ev.run(body)
+        except ZeroDivisionError:
+            return ("raise", None)
+        if res[0] == "raise":
+            return res
+        st = res[1] if res[0] == "fall" else {}
+        if res[0] == "return":
+            # state at return is not exposed by IntEval.run: re-run capturing
+            st = ev._last_state if hasattr(ev, "_last_state") else {}
+        out = dict(sym)
+        out.update({k: v for k, v in st.items() if k.startswith("self.")})
+        return ("ok", out)
+    # IntEval.run returns ('return', value) without the state; patch: wrap returns as fall-through by evaluating a copy with `return` -> end
+    class _Ret(Exception):
+        pass
+    problems = {}
+    n_eval = 0
+    for nk in (1, 2, 3):
+        for nc in (1, 2, 4):
+            n = nk * nc
+            # size mode
+            for bs in (None, 1, 2, 3, 5, 0):
+                n_eval += 1
+                r = evaluate(bs, None, None, nk, nc)
+                if bs == 0:
+                    if r[0] != "raise":
+                        problems.setdefault("size-validate", "batchsize=0 is accepted (n=%d)" % n)
+                    continue
+                eff = 1 if bs is None else bs
+                if r[0] != "ok":
+                    problems.setdefault("size-mode", "batchsize=%s, n=%d: raises" % (bs, n))
+                    continue
+                o = r[1]
+                if (o["self.batchsize"], o["self.num_batches"], o["self._batch_remainder"]) != (eff, -(-n // eff), 0):
+                    problems.setdefault("size-mode", "batchsize=%s, n=%d gives (batchsize, num_batches, remainder) = (%s, %s, %s); expected (%d, %d, 0) = ceil(n / batchsize)"
+                                        % (bs, n, o["self.batchsize"], o["self.num_batches"], o["self._batch_remainder"], eff, -(-n // eff)))
+            # count mode
+            for k in (1, 2, 3, 5, 9, 0):
+                n_eval += 1
+                r = evaluate(None, k, None, nk, nc)
+                if k == 0:
+                    if r[0] != "raise":
+                        problems.setdefault("count-validate", "num_batches=0 is accepted (n=%d)" % n)
+                    continue
+                if r[0] != "ok":
+                    problems.setdefault("count-mode", "num_batches=%d, n=%d: raises" % (k, n))
+                    continue
+                o = r[1]
+                B = min(k, n)
+                want = (n // B, B, n % B)
+                got = (o["self.batchsize"], o["self.num_batches"], o["self._batch_remainder"])
+                if got != want:
+                    problems.setdefault("count-mode", "num_batches=%d, n=%d gives (batchsize, num_batches, remainder) = %s; expected %s = (n // B, B = min(k, n), n %% B): the stored numbers do not describe the batches that are written" % (k, n, got, want))
+            # both given (re-sow of an already sown crop)
+            for bs in (1, 2, 3):
+                for nb in (1, 2, 3, 4):
+                    for rem in (None, 0, 1):
+                        n_eval += 1
+                        r = evaluate(bs, nb, rem, nk, nc)
+                        tot = bs * nb + (rem or 0)
+                        accept = (n <= tot < n + bs)
+                        if accept and r[0] != "ok":
+                            problems.setdefault("window", "stored batchsize=%d, num_batches=%d, remainder=%s is refused for n=%d although n <= %d < n + batchsize" % (bs, nb, rem, n, tot))
+                        elif (not accept) and r[0] == "ok":
+                            problems.setdefault("window", "stored batchsize=%d, num_batches=%d, remainder=%s is accepted for n=%d although not (n <= %d < n + batchsize): the stored numbers do not cover the new settings exactly" % (bs, nb, rem, n, tot))
+                        elif accept and r[0] == "ok":
+                            o = r[1]
+                            if (o["self.batchsize"], o["self.num_batches"], o["self._batch_remainder"]) != (bs, nb, rem):
+                                problems.setdefault("window-state", "the consistency check changes the stored numbers")
+    # n itself: combos / cases absent -> factor 1
+    r1 = evaluate(None, None, None, 3, 4, with_combos=False, with_cases=True)
+    r2 = evaluate(None, None, None, 3, 4, with_combos=True, with_cases=False)
+    r3 = evaluate(None, None, None, 3, 4, with_combos=True, with_cases=True)
+    if not (r1[0] == r2[0] == r3[0] == "ok" and (r1[1]["self.num_batches"], r2[1]["self.num_batches"], r3[1]["self.num_batches"]) == (3, 4, 12)):
+        problems.setdefault("n", "the number of settings is not n_cases x prod(len(values)) with neutral element 1 (got batches %s for (3 cases, no combos), (no cases, 4 combos), (3 x 4))"
+                            % ([x[1]["self.num_batches"] if x[0] == "ok" else "raise" for x in (r1, r2, r3)],))
+    for kind, msg in problems.items():
+        rr.bad(ctx.finding(rid, f, f.node, "choose_batch_settings: " + msg, construct="formula " + kind), "formula " + kind)
+    if not problems:
+        rr.ok("size mode: (batchsize or 1, ceil(n / batchsize), 0); batchsize < 1 refused -- evaluated on the window")
+        rr.ok("count mode: B = min(k, n), (n // B, B, n % B); k < 1 refused -- evaluated on the window")
+        rr.ok("both given: accepted iff n <= batchsize * num_batches (+ remainder) < n + batchsize, numbers unchanged -- evaluated on the window")
+        rr.ok("n = n_cases x prod(len(values)), absent factors count 1")
+    ctx.extra["formula_evaluations"] = n_eval
     return rr
 
 
